@@ -198,6 +198,26 @@ def rule_HDR(rep, srcdir):
                     "with the initialiser returns early" % (name, slow), sample={"fn": name, "paths": len(res)})
 
 
+def rule_OD5(rep, prog):
+    rid = rep.rule("C09-OD5", "the lock value a thread writes into a once gate (and every other owner word) is never the uninitialised 0: the cached thread id of the "
+                   "thread-specific data is read only behind the lazy initialiser (_dispatch_get_tsd_base / libdispatch_tsd_init) - a raw pthread whose first libdispatch "
+                   "call is dispatch_once would otherwise `take` the gate with owner 0, i.e. leave it open, and a second caller runs the initialiser again", floor=1)
+    ALLOWED = ("_dispatch_get_tsd_base", "libdispatch_tsd_init", "_libdispatch_tsd_cleanup", "_dispatch_thread_setspecific", "_dispatch_thread_getspecific")
+    n = raw = 0
+    for fn in sorted(prog.all_functions(), key=lambda f: f.name):
+        for l in fn.all_insts():
+            if l.op != "load" or not l.d.get("ptr") or tuple(l.d["ptr"]["base"][:2]) != ("g", "__dispatch_tsd") or "tid" not in prog.fields(l):
+                continue
+            n += 1
+            rep.saw(fn)
+            ok = fn.name in ALLOWED
+            rep.require(rid, ok, l.loc, fn.name, "thread-id-read-without-lazy-init:%s" % fn.name,
+                        "%s reads the cached thread id straight from the thread-specific data, bypassing the lazy initialiser: on a thread that has not yet run it the id "
+                        "is 0, so the owner value it stores into a dispatch_once gate (or a queue / unfair lock) is the `unlocked` value" % fn.name, sample={"site": l.loc})
+    if n < 1:
+        rep.unknown(rid, "no read of the cached thread id found at all (renamed?)")
+
+
 def run(rep, tier="quick", srcdir=None, only=None):
     prog, units = load(UNITS, tier, srcdir)
     rep.units = units + ["<client probe of dispatch/once.h>"]
@@ -210,6 +230,8 @@ def run(rep, tier="quick", srcdir=None, only=None):
         rule_MP2(rep, prog, k)
     if want("C09-OD4"):
         rule_OD4(rep, prog, k)
+    if want("C09-OD5"):
+        rule_OD5(rep, prog)
     if want("C09-HDR3"):
         rule_HDR(rep, srcdir)
     if want("C09-FK"):
